@@ -162,11 +162,34 @@ def tables_module(tb, cells):
     return "\n".join(L) + "\n"
 
 
+# Template options that change the header / layout of the generated module (what stands before and after the coding comment)
+OPTS = ["none", "future1", "future2", "imports", "noloop", "strict", "filters", "modblock", "preproc", "combo"]
+
+
+def opt_kwargs(opt):
+    kw = {}
+    if opt in ("future1", "combo"):
+        kw["future_imports"] = ["annotations"]
+    if opt == "future2":
+        kw["future_imports"] = ["annotations", "division"]
+    if opt in ("imports", "combo"):
+        kw["imports"] = ["import os", "from math import pi as M_PI"]
+    if opt == "noloop":
+        kw["enable_loop"] = False
+    if opt in ("strict", "combo"):
+        kw["strict_undefined"] = True
+    if opt == "filters":
+        kw["default_filters"] = ["str", "str"]
+    if opt == "preproc":
+        kw["preprocessor"] = lambda text: text.replace("\x00", "")
+    return kw
+
+
 def cell_tla(c):
     return ('[id |-> %d, form |-> "%s", x |-> "%s", bom |-> %s, cm |-> "%s", ie |-> "%s", c |-> <<"%s", "%s">>, '
-            'path |-> "%s", oe |-> "%s", errs |-> "%s"]'
+            'path |-> "%s", oe |-> "%s", errs |-> "%s", opt |-> "%s"]'
             % (c["id"], c["form"], c["x"], "TRUE" if c["bom"] else "FALSE", c["cm"], c["ie"], c["c"][0], c["c"][1],
-               c["path"], c["oe"], c["errs"]))
+               c["path"], c["oe"], c["errs"], c["opt"]))
 
 
 CFG = """CONSTANTS Codecs <- T_Spellings  Canon <- T_Canon  EncT <- T_EncT  DecT <- T_DecT  EncE <- T_EncE  Prefix <- T_Prefix
@@ -199,6 +222,11 @@ def make_cells(run, tb):
     def add(**kw):
         kw["id"] = len(cells) + 1
         kw["variant"] = rng.randrange(1 << 16)
+        # module-layout options: mostly on the module-file paths, where the header matters; given through a
+        # TemplateLookup instead of Template on about half of the file-based cells
+        on_disk = kw["path"] in ("moddir", "reload")
+        kw["opt"] = rng.choice(OPTS[1:]) if (on_disk and rng.random() < 0.7) or rng.random() < 0.15 else "none"
+        kw["via_lookup"] = kw["path"] != "bytes" and rng.random() < 0.5
         cells.append(kw)
 
     spell = tb["spell"]
@@ -269,13 +297,20 @@ def layout(cell):
     return swap, comment
 
 
+def body_of(cell):
+    # a <%! %> block is hoisted to the top of the generated module wherever it stands; it writes nothing
+    if cell["opt"] in ("modblock", "combo"):
+        return ["<%! MODX = '{1} ' %>" + BODY[0]] + BODY[1:]
+    return BODY
+
+
 def concretise(cell, SYM):
     """The template as given to Mako: bytes (hex) or str."""
     swap, comment = layout(cell)
     a, b = SYM[cell["c"][0]], SYM[cell["c"][1]]
     if swap:
         a, b = b, a
-    text = comment + _subst(BODY, a, b)
+    text = comment + _subst(body_of(cell), a, b)
     if cell["form"] == "str":
         return {"str": text}
     raw = text.encode(PY[cell["x"]])
@@ -297,7 +332,9 @@ def expected_concrete(cell, exp, SYM, tb):
     a, b = pair([SYM[s] for s in exp["uni"]])
     e["uni"] = _subst(OUT, a, b)
     a, b = pair([SYM[s] for s in exp["src"]])
-    e["src"] = comment + _subst(BODY, a, b)
+    e["src"] = comment + _subst(body_of(cell), a, b)
+    if cell["opt"] in ("modblock", "combo"):
+        e["modx"] = pair([SYM[s] for s in exp["uni"]])[0] + " "
     o = exp["out"]
     if o["ty"] == "str":
         a, b = pair([SYM[s] for s in o["v"]])
@@ -334,6 +371,8 @@ def compare(cell, exp, obs):
         return "uni"
     if obs.get("out") != exp["out"]:
         return "out"
+    if "modx" in exp and obs.get("modx") != exp["modx"]:
+        return "modx"
     src = obs.get("src")
     if isinstance(src, str) and src.startswith("\ufeff"):
         src = src[1:]       # whether Template.source shows the byte-order mark is not specified
@@ -356,6 +395,7 @@ def _observe(job, phase):
     from mako.template import Template
     o = {"id": job["id"]}
     kw = {}
+    okw = opt_kwargs(job["opt"])
     if job["ie"] != NONE:
         kw["input_encoding"] = job["ie"]
     if job["oe"] != NONE:
@@ -366,17 +406,31 @@ def _observe(job, phase):
     modpath = None
     try:
         if path == "bytes":
-            t = Template(text=raw, **kw)
+            t = Template(text=raw, **kw, **okw)
         else:
             if phase == "A":
                 with open(job["fn"], "wb") as f:
                     f.write(raw)
                 os.utime(job["fn"], (1_000_000_000, 1_000_000_000))
+            if job.get("via_lookup"):      # the same options given to a TemplateLookup, which hands them on
+                from mako.lookup import TemplateLookup
+                lkw = dict(kw)
+                lkw.update(okw)
+                if path != "file":
+                    lkw["module_directory"] = job["md"]
+
+                def make():
+                    return TemplateLookup([os.path.dirname(job["fn"])], **lkw).get_template(os.path.basename(job["fn"]))
+            else:
+                def make():
+                    if path == "file":
+                        return Template(filename=job["fn"], **kw, **okw)
+                    return Template(filename=job["fn"], module_directory=job["md"], **kw, **okw)
             if path == "file":
-                t = Template(filename=job["fn"], **kw)
+                t = make()
             else:
                 before = _digests(job["md"])
-                t = Template(filename=job["fn"], module_directory=job["md"], **kw)
+                t = make()
                 after = _digests(job["md"])
                 o["recompiled"] = before != after
                 mods = sorted(after)
@@ -389,12 +443,18 @@ def _observe(job, phase):
         o["detail"] = str(ex)[:200]
         return o
     o["res"] = "ok"
+    if job["opt"] in ("modblock", "combo"):
+        o["modx"] = getattr(t.module, "MODX", None)
     o["enc"] = getattr(t.module, "_source_encoding", None)
     if modpath:
-        with open(modpath, "rb") as f:
-            first = f.readline()
-        m = re.match(rb"#.*coding[:=]\s*([-\w.]+)", first)
-        o["coding"] = m.group(1).decode("ascii") if m else NONE
+        # the encoding Python itself will read the module file with (PEP 263: a coding comment on line 1, or on
+        # line 2 after a blank/comment line; UTF-8 otherwise), as decided by the standard library
+        import tokenize
+        try:
+            with open(modpath, "rb") as f:
+                o["coding"] = tokenize.detect_encoding(f.readline)[0]
+        except SyntaxError:
+            o["coding"] = "invalid"
     try:
         u = t.render_unicode()
         o["uni"] = u if isinstance(u, str) else "type:" + type(u).__name__
@@ -530,6 +590,7 @@ def check(run):
         d = os.path.join(root, "c%05d" % c["id"])
         os.makedirs(d)
         jobs.append({"id": c["id"], "raw": concretise(c, SYM), "path": c["path"], "ie": PY.get(c["ie"], NONE), "oe": PY.get(c["oe"], NONE), "errs": c["errs"],
+                     "opt": c["opt"], "via_lookup": c["via_lookup"],
                      "fn": os.path.join(d, "t.html"), "md": os.path.join(d, "mods")})
     nchunks = nproc * 2
     chunks = [jobs[k::nchunks] for k in range(nchunks)]
@@ -558,17 +619,17 @@ def check(run):
                 clause = fails[0]
                 clauses[clause] = clauses.get(clause, 0) + 1
                 pth = c["path"] if which != "first" or c["path"] != "reload" else "moddir"
-                sig = "%s:%s:%s" % (clause, pth, decl_style(c))
+                sig = "%s:%s:%s" % (clause, pth, decl_style(c)) + (":opt=" + c["opt"] if c["opt"] != "none" else "")
                 nviol += 1
                 run.violation(sig, "cell %s on path %s: clause %s differs; expected %s, observed %s"
-                              % ({k: c[k] for k in ("form", "x", "bom", "cm", "ie", "c", "oe", "errs")}, pth, clause,
+                              % ({k: c[k] for k in ("form", "x", "bom", "cm", "ie", "c", "oe", "errs", "opt", "via_lookup")}, pth, clause,
                                  _short(alts[0]), _short(obs)),
                               {"cell": c, "template": jobs[c["id"] - 1]["raw"], "expected": alts, "observed": obs,
                                "symbols": {s: SYM[s] for s in set(c["c"]) | set(sum([e.get("uni", []) for e in expected[c["id"]]], []))}})
     run.extra["cells"] = len(cells)
     run.extra["mismatch_clauses"] = clauses
     for c in cells[:3]:
-        run.sample({"cell": {k: c[k] for k in ("form", "x", "bom", "cm", "ie", "c", "path", "oe", "errs")},
+        run.sample({"cell": {k: c[k] for k in ("form", "x", "bom", "cm", "ie", "c", "path", "oe", "errs", "opt")},
                     "template": jobs[c["id"] - 1]["raw"], "expected": expected[c["id"]], "observed": obs_a[c["id"]]})
 
     # ------------------------------------------------------------------ negative controls
